@@ -313,6 +313,7 @@ def variants(root):
     for fn in ('betweenness_wei', 'edge_betweenness_wei', 'edge_betweenness_bin'):
         B('first-hop nodes skipped in the back-propagation', fn, '            for v in np.where(P[w, :])[0]:', '            if P[w, u]:\n                continue\n            for v in np.where(P[w, :])[0]:', 'D.every-predecessor')
         B('back-propagation stops at the first leaf', fn, '            for v in np.where(P[w, :])[0]:', '            if not DP[w]:\n                break\n            for v in np.where(P[w, :])[0]:', 'D.every-predecessor')
+    N('tie tested before strict improvement', 'betweenness_wei', '                    if Duw < D[w]:  # if new u->w shorter than old\n                        D[w] = Duw\n                        NP[w] = NP[v]  # NP(u->w) = NP of new path\n                        P[w, :] = 0\n                        P[w, v] = 1  # v is the only predecessor\n                    elif Duw == D[w]:  # if new u->w equal to old\n                        NP[w] += NP[v]  # NP(u->w) sum of old and new\n                        P[w, v] = 1  # v is also predecessor\n', '                    if Duw == D[w]:\n                        NP[w] += NP[v]\n                        P[w, v] = 1\n                    elif Duw < D[w]:\n                        D[w] = Duw\n                        NP[w] = NP[v]\n                        P[w, :] = 0\n                        P[w, v] = 1\n')
     for fn in ('betweenness_wei', 'edge_betweenness_wei'):
         B('frontier loop left at a node without unvisited neighbours', fn, '                W, = np.where(G1[v, :])  # neighbors of v\n',
           '                W, = np.where(G1[v, :])  # neighbors of v\n                if W.size == 0:\n                    break\n', 'Q.frontier-loop')
